@@ -274,7 +274,8 @@ def run(ctx):
                 reals = {sv: hineslib.run_real(m, st, g, v0, vt, ct, dtq, sv) for sv in ("jaxley.thomas", "jaxley.stone")}
             except (AssertionError, NotImplementedError, ValueError):
                 continue        # the jaxley backends refuse this structure (allowed by the property)
-            exprs += [hineslib.coq_step_expr(st, g, v0, vt, ct, dtq), hineslib.coq_step_expr(st, g, v0, vt, ct, dtq, fn="arr_divisors_okQ"), chk]
+            exprs += [hineslib.coq_step_expr(st, g, v0, vt, ct, dtq), hineslib.coq_step_expr(st, g, v0, vt, ct, dtq, fn="arr_divisors_okQ"), chk,
+                      hineslib.coq_mstore_expr(st, g, v0, vt, ct, dtq)]
             if "parents" in case:
                 # Model/HinesIdx.v (about which C01_checker_accepts_every_cell is proved) must produce
                 # exactly the index structure the code built
@@ -282,7 +283,7 @@ def run(ctx):
             metas.append((case, st, reals, dict(g=[float(x) for x in g], v=[float(x) for x in v0], vt=[float(x) for x in vt], ct=[float(x) for x in ct], dt=float(dtq))))
         outs = coqeval.coq_eval(["CableQ", "HinesArr", "HinesArrQ", "HinesCheck"], exprs, shard=3)
         for k, (case, st, reals, vals) in enumerate(metas):
-            model = [float(x) for x in cablelib.parse_q_list(outs[3 * k])]
+            model = [float(x) for x in cablelib.parse_q_list(outs[4 * k])]
             narr += 1
             evals += 2
             distinct.add(("arr", str(case)))
@@ -290,9 +291,11 @@ def run(ctx):
                 if len(o) != len(model) or max(abs(a - b) for a, b in zip(o, model)) > 1e-9 * 100:
                     viol.append(dict(case, kind="step_voltage_implicit_with_jaxley_spsolve differs from the array-level model (Model/HinesArr.v)",
                                      solver=sv, values=vals, got=o, model=model))
-            if outs[3 * k + 1] != "true":
+            if outs[4 * k + 1] != "true":
                 viol.append(dict(case, kind="the array-level model divides by zero on a diagonally dominant system", values=vals))
-            if outs[3 * k + 2] != "true":
+            if outs[4 * k + 3] != "true":
+                viol.append(dict(case, kind="the assembled arrays are not M-matrix-like (hypothesis of C01_array_solver_total)", values=vals, no_failing_input_found=True))
+            if outs[4 * k + 2] != "true":
                 viol.append(dict(case, kind="the verified schedule checker rejects the index structure the code built (theorem C01_array_solver_correct no longer applies)",
                                  cumsum=st["cs"], padded=st["pl"], ncomp=st["nc"], levels=st["levels"], roots=st["roots"], no_failing_input_found=True))
         import ast
